@@ -752,47 +752,187 @@ func genHistory(r *rand.Rand, sels []string, n int) [][]byte {
 	return h
 }
 
+// ---- hand-written corpus ---------------------------------------------------------------
+
+// mini assembler over vm.NewLine: one instruction per ';'-separated item
+func asmLines(src string) []byte {
+	var code []byte
+	for _, l := range strings.Split(src, ";") {
+		f := strings.Fields(l)
+		if len(f) == 0 {
+			continue
+		}
+		num := func(s string) uint32 {
+			var n uint32
+			fmt.Sscanf(s, "%d", &n)
+			return n
+		}
+		mode := func(s string) []uint8 {
+			if s == "1" || s == "true" {
+				return []uint8{1}
+			}
+			return []uint8{0}
+		}
+		switch f[0] {
+		case "LOAD":
+			code = append(code, line(vm.LOAD, []string{f[1]}, minBE(num(f[2])), nil)...)
+		case "RELOAD":
+			code = append(code, line(vm.RELOAD, []string{f[1]}, nil, nil)...)
+		case "MAP":
+			code = append(code, line(vm.MAP, []string{f[1]}, nil, nil)...)
+		case "MOVE":
+			code = append(code, line(vm.MOVE, []string{f[1]}, nil, nil)...)
+		case "HALT":
+			code = append(code, line(vm.HALT, nil, nil, nil)...)
+		case "INCMP":
+			code = append(code, line(vm.INCMP, []string{f[1], f[2]}, nil, nil)...)
+		case "MOUT":
+			code = append(code, line(vm.MOUT, []string{f[1], f[2]}, nil, nil)...)
+		case "MNEXT":
+			code = append(code, line(vm.MNEXT, []string{f[1], f[2]}, nil, nil)...)
+		case "MPREV":
+			code = append(code, line(vm.MPREV, []string{f[1], f[2]}, nil, nil)...)
+		case "MSINK":
+			code = append(code, line(vm.MSINK, nil, nil, nil)...)
+		case "CATCH":
+			code = append(code, line(vm.CATCH, []string{f[1]}, minBE(num(f[2])), mode(f[3]))...)
+		case "CROAK":
+			code = append(code, line(vm.CROAK, nil, minBE(num(f[1])), mode(f[2]))...)
+		default:
+			panic("asmLines: " + l)
+		}
+	}
+	return code
+}
+
+type corpusCase struct {
+	name   string
+	nodes  [][3]string // name, source, template
+	tplx   []kv
+	menu   []kv
+	fn     map[string][]eFres
+	cfg    eCfg
+	inputs []string
+}
+
+func st1(s string) []eFres { return []eFres{{Content: s}} }
+
+var engineCorpus = []corpusCase{
+	{name: "dupsel", nodes: [][3]string{{"root", "HALT; INCMP foo 1; INCMP bar 1; INCMP baz *", "root"}, {"foo", "HALT; INCMP _ 0", "foo"}, {"bar", "HALT; INCMP _ 0", "bar"}, {"baz", "HALT; INCMP _ 0", "baz"}, {"_catch", "HALT; INCMP _ *", "catch"}},
+		cfg: eCfg{FlagCount: 1}, inputs: []string{"", "1", "0", "0", "0"}},
+	{name: "exit-overflow", nodes: [][3]string{{"root", "HALT; INCMP end1 1", "root"}, {"end1", "LOAD bye 0; HALT", "bye"}, {"_catch", "HALT; INCMP _ *", "catch"}},
+		fn: map[string][]eFres{"bye": st1(strings.Repeat("b", 50))}, cfg: eCfg{FlagCount: 1, Out: 30}, inputs: []string{"", "1", "", "1"}},
+	{name: "error-prefix", nodes: [][3]string{{"root", "MOUT to_foo 1; HALT; INCMP foo 1", "root"}, {"foo", "HALT; INCMP _ 0", "foo"}, {"_catch", "MOUT back 0; HALT; INCMP _ 0", "catch"}},
+		cfg: eCfg{FlagCount: 1}, inputs: []string{"", "x", "0", "1", "0", "zz", "0"}},
+	{name: "sizer-sink-name", nodes: [][3]string{{"root", "LOAD aa 0; MAP aa; MNEXT nxt 11; MPREV prv 22; HALT; INCMP > 11; INCMP < 22; INCMP foo 1", "root {{.aa}}"}, {"foo", "LOAD bb 20; MAP bb; HALT; INCMP _ 0", "foo {{.bb}}"}, {"_catch", "HALT; INCMP _ *", "catch"}},
+		fn: map[string][]eFres{"aa": st1("one\ntwo\nthree\nfour\nfive"), "bb": st1("x\ny")}, cfg: eCfg{FlagCount: 1, Out: 40}, inputs: []string{"", "11", "22", "1", "0", "11"}},
+	{name: "deep-cycle", nodes: [][3]string{{"root", "HALT; INCMP foo *", "root"}, {"foo", "HALT; INCMP root *", "foo"}, {"_catch", "HALT; INCMP _ *", "catch"}},
+		cfg: eCfg{FlagCount: 1}, inputs: append([]string{""}, strings.Split(strings.Repeat("1 ", 132), " ")[:132]...)},
+	{name: "croak", nodes: [][3]string{{"root", "HALT; INCMP foo 1", "root"}, {"foo", "LOAD aa 10; HALT; INCMP bar 1", "foo"}, {"bar", "CROAK 8 1; HALT; INCMP _ 0", "bar"}, {"_catch", "HALT; INCMP _ *", "catch"}},
+		fn: map[string][]eFres{"aa": []eFres{{Content: "v", Set: []uint32{8}}}}, cfg: eCfg{FlagCount: 2}, inputs: []string{"", "1", "1", "0", "1"}},
+	{name: "lang-empty", nodes: [][3]string{{"root", "LOAD lang1 0; HALT; INCMP foo 1", "root"}, {"foo", "RELOAD lang1; HALT; INCMP _ 0", "foo"}, {"_catch", "HALT; INCMP _ *", "catch"}},
+		tplx: []kv{{"root_nor", "rot"}, {"foo_nor", "fu"}}, fn: map[string][]eFres{"lang1": []eFres{{Content: "nor", Set: []uint32{7}}, {Content: "", Set: []uint32{7}}, {Content: "xx", Set: []uint32{7}}}}, cfg: eCfg{FlagCount: 1}, inputs: []string{"", "1", "0", "1", "0"}},
+	{name: "first-terminate", nodes: [][3]string{{"root", "HALT; INCMP foo 1", "root"}, {"foo", "HALT; INCMP _ 0", "foo"}, {"_catch", "HALT; INCMP _ *", "catch"}},
+		cfg: eCfg{FlagCount: 1, First: []eFres{{Content: "hello"}, {Content: "blocked", Set: []uint32{6}}, {Content: "again"}}}, inputs: []string{"", "1", "0", "!bad", "1"}},
+	{name: "first-refused", nodes: [][3]string{{"root", "HALT; INCMP foo 1", "root"}, {"foo", "HALT; INCMP _ 0", "foo"}, {"_catch", "HALT; INCMP _ *", "catch"}},
+		cfg: eCfg{FlagCount: 1, First: []eFres{{Content: "f", Echo: true}}}, inputs: []string{"", "!bad", "1", strings.Repeat("9", 300), "0"}},
+	{name: "restart-after-error", nodes: [][3]string{{"root", "LOAD aa 5; MAP aa; HALT; INCMP foo 1", "root {{.aa}}"}, {"foo", "HALT; INCMP _ 0", "foo"}, {"_catch", "HALT; INCMP _ *", "catch"}},
+		fn: map[string][]eFres{"aa": []eFres{{Content: "toolong"}, {Content: "ok"}}}, cfg: eCfg{FlagCount: 1}, inputs: []string{"", "1", "1"}},
+	{name: "separator-after-halt", nodes: [][3]string{{"root", "MOUT one 1; HALT; MOUT two 2; HALT; INCMP foo 1", "root"}, {"foo", "HALT; INCMP _ 0", "foo"}, {"_catch", "HALT; INCMP _ *", "catch"}},
+		cfg: eCfg{FlagCount: 1, Sep: ") "}, inputs: []string{"", "x", "1", "0"}},
+	{name: "terminate-blocked", nodes: [][3]string{{"root", "HALT; INCMP foo 1", "root"}, {"foo", "LOAD aa 10; HALT; INCMP _ 0", "foo"}, {"_catch", "HALT; INCMP _ *", "catch"}},
+		fn: map[string][]eFres{"aa": []eFres{{Content: "t", Set: []uint32{6, 9}}}}, cfg: eCfg{FlagCount: 2}, inputs: []string{"", "1", "0", "1", ""}},
+	{name: "graceful-end", nodes: [][3]string{{"root", "HALT; INCMP foo 1", "root"}, {"foo", "LOAD aa 10; MAP aa; HALT; INCMP end1 1", "foo {{.aa}}"}, {"end1", "LOAD bb 0; HALT", "the end"}, {"_catch", "HALT; INCMP _ *", "catch"}},
+		fn: map[string][]eFres{"aa": []eFres{{Content: "v", Set: []uint32{8}}}, "bb": st1(" bye")}, cfg: eCfg{FlagCount: 2, CacheSize: 100}, inputs: []string{"", "1", "1", "", "1", "1"}},
+	{name: "abnormal-end", nodes: [][3]string{{"root", "HALT; INCMP foo 1", "root"}, {"foo", "LOAD aa 10", "foo"}, {"_catch", "HALT; INCMP _ *", "catch"}},
+		fn: map[string][]eFres{"aa": st1("v")}, cfg: eCfg{FlagCount: 2}, inputs: []string{"", "1", "", "1"}},
+	{name: "browse-past-end", nodes: [][3]string{{"root", "LOAD aa 0; MAP aa; MNEXT nxt 11; MPREV prv 22; HALT; INCMP > 11; INCMP < 22", "r {{.aa}}"}, {"_catch", "MOUT back 0; HALT; INCMP _ 0", "catch"}},
+		fn: map[string][]eFres{"aa": st1("one\ntwo\nthree\nfour")}, cfg: eCfg{FlagCount: 1, Out: 28}, inputs: []string{"", "22", "11", "11", "11", "11", "0"}},
+	{name: "menu-sink", nodes: [][3]string{{"root", "MOUT aaa 1; MOUT bbb 2; MOUT ccc 3; MOUT ddd 4; MOUT eee 5; MSINK; MNEXT nxt 11; MPREV prv 22; HALT; INCMP > 11; INCMP < 22; INCMP foo *", "root"}, {"foo", "HALT; INCMP _ 0", "foo"}, {"_catch", "HALT; INCMP _ *", "catch"}},
+		cfg: eCfg{FlagCount: 1, Out: 30}, inputs: []string{"", "11", "11", "22", "11", "11", "11"}},
+}
+
+func (cc corpusCase) build() (genOut, [][]byte) {
+	a := &eApp{Fn: map[string][]eFres{}}
+	var desc []string
+	for _, n := range cc.nodes {
+		a.Code = append(a.Code, kv{n[0], string(asmLines(n[1]))})
+		a.Tpl = append(a.Tpl, kv{n[0], n[2]})
+		desc = append(desc, n[0]+": "+n[1])
+	}
+	a.Tpl = append(a.Tpl, cc.tplx...)
+	a.Menu = cc.menu
+	names := []string{}
+	for k := range cc.fn {
+		names = append(names, k)
+	}
+	sort.Strings(names)
+	for _, k := range names {
+		fs := cc.fn[k]
+		for i := range fs {
+			fs[i].Content = strings.ReplaceAll(fs[i].Content, "\\n", "\n")
+		}
+		a.Funcs = append(a.Funcs, k)
+		a.Fn[k] = fs
+	}
+	cfg := cc.cfg
+	var in [][]byte
+	for _, s := range cc.inputs {
+		in = append(in, []byte(s))
+	}
+	return genOut{app: a, cfg: &cfg, desc: desc}, in
+}
+
 // ---- driver ----------------------------------------------------------------------------
 
 func init() { drivers["engine"] = runEngine }
 
-func engineCase(idx int, kind string, g genOut, persisted bool, inputs [][]byte) (hx.Case, error) {
-	steps, err := runEngineCase(g.app, g.cfg, persisted, inputs)
+func engineCase(idx int, kind string, g genOut, inputs [][]byte) (hx.Case, []eStep, error) {
+	long, err := runEngineCase(g.app, g.cfg, false, inputs)
 	if err != nil {
-		return hx.Case{}, err
+		return hx.Case{}, nil, err
 	}
-	st := make([]string, len(steps))
-	for i, s := range steps {
-		st[i] = s.term
+	pers, err := runEngineCase(g.app, g.cfg, true, inputs)
+	if err != nil {
+		return hx.Case{}, nil, err
 	}
-	term := fmt.Sprintf("(mkEcase %s %s %s %s)", g.app.term(), g.cfg.term(), hx.Bool(persisted), hx.List(st))
-	return hx.Case{Term: term, Kind: kind, Trivial: len(steps) < 2,
-		Desc: map[string]interface{}{"nodes": g.desc, "cfg": g.cfg, "app": g.app, "persisted": persisted, "steps": steps}}, nil
+	tl := func(steps []eStep) string {
+		st := make([]string, len(steps))
+		for i, s := range steps {
+			st[i] = s.term
+		}
+		return hx.List(st)
+	}
+	term := fmt.Sprintf("(mkEcase %s %s %s %s)", g.app.term(), g.cfg.term(), tl(long), tl(pers))
+	return hx.Case{Term: term, Kind: kind, Trivial: len(pers) < 2,
+		Desc: map[string]interface{}{"nodes": g.desc, "cfg": g.cfg, "app": g.app, "long": long, "persisted": pers}}, append(long, pers...), nil
 }
 
 func runEngine(o opts) error {
-	w := &hx.Writer{Dir: o.out, Prop: o.prop, Imports: "Bytes Errors Consts Codec CacheModel StateModel RenderModel VmModel EngineModel CorrBase EngineCorr",
-		CaseType: "ecase", Mism: "engine_mismatches", Viol: "engine_violations_" + strings.ToLower(o.prop), PerShard: 25}
+	w := &hx.Writer{Dir: o.out, Prop: o.prop, Imports: "Bytes Errors Consts Codec CacheModel StateModel NavModel RenderModel VmModel EngineModel CorrBase EngineCorr EngineMon",
+		CaseType: "ecase", Mism: "engine_mismatches", Viol: "engine_violations_" + strings.ToLower(o.prop), PerShard: 20}
+	for i, cc := range engineCorpus {
+		g, inputs := cc.build()
+		c, _, err := engineCase(i, "corpus:"+cc.name, g, inputs)
+		if err != nil {
+			return err
+		}
+		w.Add(c)
+	}
 	for i := 0; i < o.n; i++ {
 		r := hx.Rng(o.seed, "engine", i)
 		g := genApp(r)
 		inputs := genHistory(r, g.sels, 3+r.Intn(6))
-		for _, persisted := range []bool{false, true} {
-			kind := "long"
-			if persisted {
-				kind = "persisted"
-			}
-			c, err := engineCase(i, kind, g, persisted, inputs)
-			if err != nil {
-				return err
-			}
-			w.Add(c)
-			for _, s := range c.Desc.(map[string]interface{})["steps"].([]eStep) {
-				w.Count("exec:" + s.Exec)
-				w.Count("flush:" + s.Flush)
-				if s.Panic != "" {
-					w.Count("panic")
-				}
+		c, steps, err := engineCase(i, "generated", g, inputs)
+		if err != nil {
+			return err
+		}
+		w.Add(c)
+		for _, s := range steps {
+			w.Count("exec:" + s.Exec)
+			w.Count("flush:" + s.Flush)
+			if s.Panic != "" {
+				w.Count("panic")
 			}
 		}
 	}
